@@ -69,7 +69,8 @@ def backward_check(H):
         it = H.interp(cx, loop_specs=A.LOOPS, overrides=A.SUMMARIES)
         heap, T, L, chunk, rg, agg, offT = setup(cx, it, H)
         has0, val0, stor0 = heap.snapshot()
-        kind, out = call_catch(lambda: it.call(H.repo.get(f"{AJ}.backward.backward"), [T, agg, L, rg, chunk]))
+        # `inputs` is annotated Iterable[Tensor]: it is passed as a ONE-SHOT iterable (a second traversal would be empty)
+        kind, out = call_catch(lambda: it.call(H.repo.get(f"{AJ}.backward.backward"), [T, agg, V.SymIter(L), rg, chunk]))
         cx.oblige("C01.backward.no_raise_on_valid_call", kind == "return", where=str(getattr(out, "where", "")))
         if kind != "return":
             return
@@ -108,6 +109,15 @@ def backward_check(H):
 
 
 CHECKS = [Check("backward", FUNCS, backward_check, replay_keys=["C01."])]
+
+
+def _with_summaries():
+    """A caller verified against summaries is only as good as the isolated contracts of its callees: they are part of
+    this property's obligations (C15: Diagonalize, Jac, Aggregate, _materialize and the layout lemmas; C06: Accumulate)."""
+    from .C06 import CHECKS as c06
+    from .C15 import CHECKS as c15
+    keep = ("diag", "jac", "aggregate", "theory.prefix_sum_monotone", "theory.block_lookup", "theory.materialize")
+    return [c for c in c15 if c.name in keep] + list(c06)
 
 TRUSTED = [
     "autograd theory [T]: torch.autograd.grad(outputs, inputs, grad_outputs, allow_unused=True) returns per input None "
@@ -150,3 +160,6 @@ def plumbing_check(prefix):
                 cx.oblige(f"{prefix}.backward.rows_are_all_output_scalars", lift(e[1]["rows"]) == offT.total())
         H.explore(body, max_paths=2000)
     return Check("backward.plumbing", FUNCS, fn, replay_keys=[prefix + "."])
+
+
+CHECKS += _with_summaries()
